@@ -150,7 +150,9 @@ def expected_header(group_names, metric_keys):
 def reference_rows(spec: dict, inputs: dict, refdir: str, log_times: bool):
     """What a sequential, single-task session writes for each input: built with its own
     evaluator and aggregator in its own directory, outside any scheduler.
-    Returns (header, {input_key: fields-after-the-subject}, metric_keys, group_names, invalid)."""
+    Returns (header, {input_key: fields-after-the-subject}, metric_keys, group_names, invalid, missing):
+    invalid = inputs for which the evaluation itself raises (outside every property's
+    quantifier); missing = inputs whose evaluation returned normally but left no row."""
     agg = MODS["agg"]
     out = os.path.join(refdir, "ref.tsv")
     ev = build_evaluator(spec)
@@ -172,10 +174,8 @@ def reference_rows(spec: dict, inputs: dict, refdir: str, log_times: bool):
     for r in rows[1:]:
         if r and r[0].startswith("ref:"):
             got[r[0][4:]] = r[1:]
-    for k in order:
-        if k not in got:
-            invalid[k] = "reference session wrote no row (claim left behind by a failed evaluation?)"
-    return header, got, keys + (["computation_time"] if log_times else []), gnames, invalid
+    missing = [k for k in order if k not in got]
+    return header, got, keys + (["computation_time"] if log_times else []), gnames, invalid, missing
 
 
 # --------------------------------------------------------------------------- stub evaluator
